@@ -101,6 +101,9 @@ def extra_shapes(seed):
         "%s (1.0-7) unstable; urgency=bogus" % p,
         "%s (1.2_rc1-1) unstable; urgency=low" % p,
         "%s (a:2024/01/04,1) unstable; urgency=low" % p,
+        # a setting whose value contains '=' and ';', a trailer with more than one '>' and '<'
+        "%s (1.0-8) unstable; urgency=low, vcs=https://h/?p=x;a=b" % p,
+        " -- A \"-->\" B <x> <a@b.c>  Mon, 01 Jan 2024 00:00:00 +0000",
     ]
 
 
